@@ -71,31 +71,35 @@ impl BufferedWriter for HtmlWriter {
 
 impl std::io::Write for HtmlWriter {
     fn write(&mut self, buf: &[u8]) -> std::io::Result<usize> {
+        // The diagnostics contain user-controlled text (source lines, identifiers,
+        // strings) as well as labels like `<input:1>`: escape everything.
+        let text = String::from_utf8_lossy(buf);
+        let escaped = html_escape::encode_text(&text);
+        let escaped = escaped.as_bytes();
+
         if let Some(color) = &self.color {
             if color.fg() == Some(&Color::Red) {
                 self.buffer
                     .write_all("<span class=\"numbat-diagnostic-red\">".as_bytes())?;
-                let size = self.buffer.write(buf)?;
+                self.buffer.write_all(escaped)?;
                 self.buffer.write_all("</span>".as_bytes())?;
-                Ok(size)
             } else if color.fg() == Some(&Color::Blue) {
                 self.buffer
                     .write_all("<span class=\"numbat-diagnostic-blue\">".as_bytes())?;
-                let size = self.buffer.write(buf)?;
+                self.buffer.write_all(escaped)?;
                 self.buffer.write_all("</span>".as_bytes())?;
-                Ok(size)
             } else if color.bold() {
                 self.buffer
                     .write_all("<span class=\"numbat-diagnostic-bold\">".as_bytes())?;
-                let size = self.buffer.write(buf)?;
+                self.buffer.write_all(escaped)?;
                 self.buffer.write_all("</span>".as_bytes())?;
-                Ok(size)
             } else {
-                self.buffer.write(buf)
+                self.buffer.write_all(escaped)?;
             }
         } else {
-            self.buffer.write(buf)
+            self.buffer.write_all(escaped)?;
         }
+        Ok(buf.len())
     }
 
     fn flush(&mut self) -> std::io::Result<()> {
